@@ -1,10 +1,23 @@
 package known
 
 import (
+	"strings"
+
 	"verifharness/model"
 )
 
 func init() {
+	// pypi: the local version label is ignored by Compare. Pinned by
+	// pkg/spec/vers/pypi_test.go "different local also excluded per PEP 440"
+	// (vers:pypi/!=1.0.0+local1 must exclude 1.0.0+local2).
+	// Syntactic predicate: one of the two versions carries a local label.
+	register("pypi.local_label", func(c Case) bool {
+		if c.Eco != "pypi" || len(c.Inputs) < 2 {
+			return false
+		}
+		return strings.Contains(c.Inputs[0], "+") || strings.Contains(c.Inputs[1], "+")
+	})
+
 	// rpm: go-univers orders an alphabetic segment above a numeric one where
 	// rpmvercmp says the numeric segment is newer. Pinned by
 	// rpm/version_test.go "release numeric vs alpha" (1.2.3-1 < 1.2.3-a).
